@@ -715,6 +715,12 @@ def run(chk: Check):
     from props._c01_kernel import run_kernel_correspondence
     run_kernel_correspondence(chk)
 
+    # tie by regeneration: the emitters of _write_sparse_ir.py / outputs/_append.py / outputs/_bucket.py are
+    # re-translated from /repo on every run; the IR they emit is PROVED (on the IR machine) to perform the
+    # transitions of model/Append.v (coq/props/TIE_append.v) + translator self-check
+    from props._tie import run_tie
+    run_tie(chk, ["append"])
+
 
 def replay(chk: Check, payload):
     os.environ.pop(GUARD, None)
